@@ -158,7 +158,7 @@ func runC01(c *Ctx) {
 		fc := map[string]int64{}
 		featCount[ci] = fc
 		for k := 0; k < n/chunks; k++ {
-			p := gen.Profile{Schema: schemas[rng.IntN(len(schemas))], MaxLines: c.N(12, 40)}
+			p := gen.Profile{Schema: schemas[rng.IntN(len(schemas))], MaxLines: c.N(12, 40), Preset: true}
 			d := g.Document(p)
 			r := runBill(d.JSON, 0)
 			if !judgeBill(c, r, "generated", d.Features, nil) {
@@ -175,6 +175,16 @@ func runC01(c *Ctx) {
 			}
 			fc["regime:"+d.Regime]++
 			fc["schema:"+p.Schema]++
+			// (1b) the calculated document with one kind of row removed, recalculated:
+			// nothing computed before may survive
+			if k%4 == 0 {
+				if name, ed := staleEdit(r.OutDoc, rng.IntN); ed != nil {
+					r2 := runBill(ed, 0)
+					if judgeBill(c, r2, "recalculated after removing "+name, d.Features, nil) {
+						fc["recalculated_after_removing:"+name]++
+					}
+				}
+			}
 			// (2) unrounded bound under the precise rule
 			if r.Rule == "precise" && r.Ref.HasTotals && ordinarySize(r) {
 				hi := runBillRefOnly(r, 12)
